@@ -102,6 +102,14 @@ type vShapeTaggedEmbed struct { // an embedded struct that itself carries a tag 
 	vFrameFields
 	VScanTagged `custom:"zz"`
 }
+type vShapeInlineEmbed struct { // an embedded struct with a foreign (serialization) tag is a field, not a container
+	nm string
+	vFrameFields
+	VScanTagged `yaml:",inline"`
+}
+
+func (h *vShapeInlineEmbed) Naming() string { return h.nm }
+
 type vShapePtrEmbed struct { // embedded pointer-to-struct is not looked into
 	nm string
 	vFrameFields
@@ -260,6 +268,19 @@ func vRunShape(shape int, fr vFrameFields, init VScanTagged, cfg *vScanCfg, prov
 		h = x
 		tagged = func() VScanTagged { return x.VScanTagged }
 		frame = func() vFrameFields { return x.vFrameFields }
+	case 10:
+		x := &vShapeInlineEmbed{nm: "holder", vFrameFields: fr, VScanTagged: init}
+		h = x
+		tagged = func() VScanTagged { return x.VScanTagged }
+		frame = func() vFrameFields { return x.vFrameFields }
+	case 11:
+		// two DIFFERENT struct types that print the same (function-local types with one name):
+		// an empty marker mixin is scanned first (on another component), then the tagged block
+		var other any
+		h, other, tagged, frame = vSameNameShapes(fr, init)
+		for _, sc := range scanners {
+			nd.Assert(sc.PostProcessDefinitionRegistry(f.definitionRegistry, other, "other") == nil, "scan ok")
+		}
 	case 8:
 		x := &vShapeTwice{nm: "holder", vFrameFields: fr, vAliasA: init, vAliasB: init}
 		h = x
@@ -310,10 +331,8 @@ func vRunShape(shape int, fr vFrameFields, init VScanTagged, cfg *vScanCfg, prov
 }
 
 func VerifC11() {
-	shape := 1 + nd.Choose(nd.Param("SHAPES", 8))
-	if shape == 7 {
-		shape = 9 // embedded pointer
-	}
+	shapes := []int{1, 2, 3, 4, 5, 6, 9, 8, 10, 11}
+	shape := shapes[nd.Choose(nd.Param("SHAPES", len(shapes)))]
 	// symbolic initial contents of every frame field and of the tagged string fields
 	fr := vFrameFields{u: int(nd.Int64()), N: int(nd.Int64()), J: nd.Bytes(1), s: nd.Bytes(1)}
 	init := VScanTagged{V: nd.Bytes(1), P: nd.Bytes(1), X: nd.Bytes(1), C: nd.Bytes(1)}
@@ -331,6 +350,10 @@ func VerifC11() {
 	}
 	nd.Assert(got.ok, "C11: the embedded shape starts")
 	switch {
+	case shape == 11:
+		nd.Cover("same-named embedded types")
+		nd.Assert(len(got.props) == len(flat.props), "C11: an embedded struct is looked through whatever other types share its printed name")
+		nd.Assert(got.w == any(provB) && got.v == cfg.k && got.p == cfg.k2 && got.x == cfg.k3 && got.l, "C11: every recognised tag inside embedded structs is processed as on the flat shape")
 	case shape == 8:
 		nd.Cover("same type embedded twice")
 		nd.Assert(len(got.props) == 2*len(flat.props), "C11: both embedded copies of a struct type are scanned")
@@ -363,3 +386,27 @@ func VerifC11() {
 }
 
 var _ definition.NamingComponent = (*vShapeFlat)(nil)
+
+// vSameNameShapes: a component embedding an EMPTY struct type named vMix and a component embedding a
+// different struct type also named vMix (both function-local) that carries the tagged block.
+func vSameNameShapes(fr vFrameFields, init VScanTagged) (any, any, func() VScanTagged, func() vFrameFields) {
+	other := vEmptyMixHolder()
+	type vMix struct{ VScanTagged }
+	type hold struct {
+		nm string
+		vFrameFields
+		vMix
+	}
+	x := &hold{nm: "holder", vFrameFields: fr, vMix: vMix{init}}
+	return x, other, func() VScanTagged { return x.VScanTagged }, func() vFrameFields { return x.vFrameFields }
+}
+
+func vEmptyMixHolder() any {
+	type vMix struct{}
+	type hold struct {
+		nm string
+		x  int
+		vMix
+	}
+	return &hold{nm: "other", x: 1}
+}
